@@ -299,6 +299,25 @@ class Attack:
                      b'\x83\xa4type\x02\xa3nsp\xa1/\xa4data' + body,
                      body][rng.randrange(3):][:1]
             ctx.count('msgpack_declared_size_frames')
+        elif 0.51 <= mode < 0.55 and ser == 'default':
+            # valid JSON, pure ASCII on the wire: a string with an unpaired
+            # surrogate escape (what a handler then holds cannot be encoded
+            # as UTF-8 unless it is escaped again on the way out)
+            mine = [ns for (T, ns) in r.issued if T == self.OT] or ['/']
+            text = R.encode(R.EVENT, rng.choice(mine), None,
+                            [rng.choice(S.EVENT_POOL), 'XSURX'])[0]
+            sendf = [text.replace('XSURX', rng.choice(
+                ['look \\ud83d', '\\udfff', 'a\\ud800b\\ud800']))]
+            ctx.count('lone_surrogate_texts')
+        elif 0.47 <= mode < 0.51 and ser == 'default':
+            # a stray binary frame (no attachment is owed) whose bytes spell a
+            # valid text packet for a handled event: binary frames carry
+            # attachments, nothing else
+            mine = [ns for (T, ns) in r.issued if T == self.OT] or ['/']
+            text = R.encode(R.EVENT, rng.choice(mine), rng.choice([None, 6]),
+                            [rng.choice(S.EVENT_POOL), 'smuggled'])[0]
+            sendf = [text.encode('utf-8')]
+            ctx.count('binary_frames_spelling_text_packets')
         elif 0.39 <= mode < 0.43:
             # names that collide with the registry's catch-all key: an event
             # called "*" (any serializer) and - msgpack only, the text format
@@ -409,6 +428,36 @@ class Attack:
             ctx.count('offender_frames')
             if self.judge_offender(res, op) is False:
                 return
+            # an application that relays what its clients say: whatever text
+            # the offender got past the decoder, the relayed event reaches
+            # the bystanders in the room (their transports can serialise it)
+            relay = [e for e in res.get('events', [])
+                     if e[0] == 'handler' and e[1] == 'event' and
+                     any(isinstance(a, str) for a in e[5])]
+            if relay and rng.random() < 0.5:
+                e = relay[0]
+                self.tok += 1
+                ns = e[2]
+                rr = r.step(['emit', self.tok, 'lobby', None, ns, None,
+                             {'said': [a for a in e[5]
+                                       if isinstance(a, str)]}])
+                ctx.count('offender_text_relayed')
+                if rr.get('exc') or rr.get('decode_errors'):
+                    return self.fail(
+                        'relaying text received from the offender to the '
+                        'room failed: %s' % (rr.get('exc') or
+                                             rr['decode_errors'][0][1]),
+                        {'frame': repr(op[2])[:400],
+                         'text': core.jsonable(e[5])})
+                got = sorted(t for t, pk in rr['sent'].items() for p in pk
+                             if t in self.by_T)
+                want = sorted(t for (t, n2), rooms in self.rooms.items()
+                              if n2 == ns and 'lobby' in rooms)
+                if got != want:
+                    return self.fail(
+                        'text received from the offender and relayed to the '
+                        'room reached bystanders %r, expected %r' % (
+                            got, want), {'frame': repr(op[2])[:400]})
         self.undecodable_seq = False
 
     def judge_offender(self, res, op):
@@ -446,6 +495,17 @@ class Attack:
                               'that does not exist (handler saw %r)' % (
                                   e[5],),
                               {'frame': repr(op[2])[:400], 'event': e})
+                    return False
+                if e[1] == 'event' and self.cfg['serializer'] == 'default' \
+                        and not self.was_reassembling and (
+                            isinstance(op[2], (bytes, bytearray)) or (
+                                op[0] == 'raw_encoded' and
+                                isinstance(op[2], str) and
+                                op[2][:1] == 'b')):
+                    self.fail('a binary frame that arrived while no '
+                              'attachment was owed reached an application '
+                              'handler', {'frame': repr(op[2])[:400],
+                                          'event': core.jsonable(e)})
                     return False
                 if e[1] == 'event' and isinstance(op[2], str) and \
                         not self.was_reassembling and \
@@ -675,6 +735,9 @@ def run(ctx):
     ctx.require('bad_placeholder_index_packets', 20)
     ctx.require('catch_all_key_collision_frames', 20)
     ctx.require('msgpack_declared_size_frames', 10)
+    ctx.require('binary_frames_spelling_text_packets', 10)
+    ctx.require('lone_surrogate_texts', 10)
+    ctx.require('offender_text_relayed', 10)
     k = 0
     while not ctx.out_of_time() and not ctx.too_many_violations():
         traced = k % 3 == 0
